@@ -154,11 +154,11 @@ Definition start_failed (ph : phase) (ev : event) : bool :=
   match ev with EStart _ ph' SRFail => phase_eqb ph' ph | _ => false end.
 
 (* the request's own errors when it reaches execution: one per failed
-   resolver call, one per deferred value that fails when forced *)
+   field (resolver or completion of its value), one per deferred value that fails when forced *)
 Definition class_errors (c : cls) : N :=
   match c with
   | CVarErr => 1
-  | CExec _ _ => N.of_nat (length (filter (fun st : step => rfails (snd st)) (sched c))) + thunk_fails c
+  | CExec _ _ => N.of_nat (length (filter (fun st : step => rerrs (snd st)) (sched c))) + thunk_fails c
   | _ => 0
   end.
 
